@@ -121,4 +121,14 @@ PROPS["C15"] = {
     "assumptions": ["EX/EXAT are carried as decimal float seconds: only float-exact values are compared (A-float)", "a zero duration option (PX 0) is indistinguishable from an absent one on the wire (known limitation of the wire format, not exercised)"],
 }
 
+PROPS["C14"] = {
+    "lean": ["OlricModel.Props.C14"],
+    "streams": [("pubsub", (8, 120), (120, 400))],
+    "model": True,
+    "level_text": "Theorems for every history of (p)subscribe / (p)unsubscribe / disconnect over any connections and members and every glob matcher: a published message is delivered exactly once to every current subscription on that channel or with a matching pattern, on every member, and to nothing else (C14_delivery); the PUBLISH reply is the number of deliveries (C14_count); nothing reaches a subscription after it left (C14_silence_*); CHANNELS / NUMSUB / NUMPAT are the distinct channels, the subscribed connections and the distinct patterns (C14_introspection). Tied to the code through real go-redis subscriber connections to 1-3 in-process members.",
+    "design_ref": "DESIGN.md §6 C14",
+    "modelled": "internal/pubsub/{pubsub,handlers}.go (PubSub/Model.lean); tidwall/match is a parameter, a `*`/`?` matcher is used for the correspondence",
+    "assumptions": ["delivery = one `message` per channel subscription and one `pmessage` per matching pattern subscription (Redis semantics)", "ordering across different publishers and socket buffering are not claimed", "PUBSUB sub-commands are sent in lower case (the mux does not fold the case of the second word)"],
+}
+
 NOT_CLAIMED = {}
